@@ -18,7 +18,7 @@ const gqlAST = "github.com/vektah/gqlparser/v2/ast."
 // extReads: what methods of gqlparser (no body in the module SSA) read.
 var extReads = map[string][]string{
 	"(*github.com/vektah/gqlparser/v2/ast.Value).String": {"Value.Raw", "Value.Kind", "Value.Children", "ChildValue.Name", "ChildValue.Value"},
-	"(*github.com/vektah/gqlparser/v2/ast.Value).Value":  {"Value.Raw", "Value.Kind", "Value.Children", "ChildValue.Name", "ChildValue.Value"},
+	"(*github.com/vektah/gqlparser/v2/ast.Value).Value":  {"Value.Raw", "Value.Kind", "Value.Children", "ChildValue.Name", "ChildValue.Value", "Value.VariableDefinition", "VariableDefinition.DefaultValue"},
 }
 
 // readSet returns "Type.Field" for every load of a struct field in functions reachable from
@@ -77,12 +77,11 @@ var derivedFields = map[string]string{
 	"FragmentSpread.Definition":        "link to the fragment definition; its contents are compared field by field",
 	"Value.Definition":                 "validator annotation",
 	"Value.ExpectedType":               "validator annotation",
-	"Value.VariableDefinition":         "validator annotation",
+	"Value.VariableDefinition":         "validator annotation that links to the operation's variable header; the planner does not follow it today (that is finding F13b) — once it does, this line must go, because the header is not part of the key",
 	"Value.Position":                   "source position only",
 	"Argument.Position":                "source position only",
 	"Directive.Position":               "source position only",
 	"Directive.Definition":             "validator annotation",
-	"OperationDefinition.Name":         "changes only the consistent pair query text / operationName of root steps",
 	"OperationDefinition.Position":     "source position only",
 	"FragmentDefinition.Name":          "printed through FragmentSpread.Name",
 	"FragmentDefinition.Definition":    "validator annotation",
